@@ -303,10 +303,10 @@ class stems_entries:
         "implies(len(entries) > 0, not (entries[0].index_ >= 2 and self.entries[entries[0].index_ - 2].pair == entries[0].pair + 1))",
     ]}}
     ghost = [
-        {"when": "before", "at": "stems.append(entries)", "loop": 0, "label": "closed-run-maximal",
+        {"when": "before", "at": "stems.append(", "loop": 0, "label": "closed-run-maximal",
          "do": ["assert entries[len(entries) - 1].index_ == after(entries) and entries[len(entries) - 1].pair == entries[0].pair - len(entries) + 1",
                 "assert not (after(entries) < len(self.entries) and qual(self.entries[after(entries)]) and self.entries[after(entries)].pair == entries[0].pair - len(entries))"]},
-        {"when": "after", "at": "entries = [entry]", "loop": 0, "label": "new-run-maximal",
+        {"when": "after", "at": "entries = [", "loop": 0, "label": "new-run-maximal",
          "do": ["assert not (entry.index_ >= 2 and self.entries[entry.index_ - 2].pair == entry.pair + 1)"]},
         {"when": "before", "at": "if entries:", "label": "open-run-maximal",
          "do": ["assert implies(len(entries) > 0, not (after(entries) < len(self.entries) and qual(self.entries[after(entries)])))"]},
@@ -338,8 +338,8 @@ class stems_entries_inverse:
         "forall(lambda x: implies(0 <= x and x < p and qual(self.entries[x]), (0 <= GS[x] and GS[x] < len(stems) and covered(x + 1, stems[GS[x]])) or (GS[x] == len(stems) and covered(x + 1, entries))))",
     ]}}
     ghost = [
-        {"when": "after", "at": "entries.append(entry)", "loop": 0, "label": "GS-join", "do": ["let GS = upd(GS, p, len(stems))"]},
-        {"when": "after", "at": "entries = [entry]", "loop": 0, "label": "GS-start", "do": ["let GS = upd(GS, p, len(stems))"]},
+        {"when": "after", "at": "entries.append(", "loop": 0, "label": "GS-join", "do": ["let GS = upd(GS, p, len(stems))"]},
+        {"when": "after", "at": "entries = [", "loop": 0, "label": "GS-start", "do": ["let GS = upd(GS, p, len(stems))"]},
     ]
 
 
@@ -493,7 +493,7 @@ class db_post_init_painted:
         "decoded_g(self.pairs, R, G, i)"]}}
     ghost = [
         {"when": "after", "at": "self.pairs = []", "label": "pos0", "do": ["let pos = fill(len(self.structure), 0 - 1)"]},
-        {"when": "after", "at": "begins[c].append(i)", "label": "push", "do": ["let pos = upd(pos, i, len(begins[c]) - 1)"]},
+        {"when": "after", "at": "begins[c].append(", "label": "push", "do": ["let pos = upd(pos, i, len(begins[c]) - 1)"]},
         {"when": "before", "at": "self.pairs.append(", "label": "pop",
          "do": ["let b = G[i]", "let xb = lo5(R, b) + (hi3(R, b) - i)",
                 "assert b >= 0 and on3(R, b, i) and begin == OPEN[O[b]]",
@@ -560,8 +560,8 @@ class make_dot_bracket:
     ]
     ghost = [
         {"when": "after", "at": "structure = [", "label": "G0", "do": ["let G = fill(len(sequence), 0 - 1)"]},
-        {"when": "after", "at": "structure[j - 1] = bracket[0]", "label": "G5", "do": ["let G = upd(G, j - 1, i)"]},
-        {"when": "after", "at": "structure[k - 1] = bracket[1]", "label": "G3", "do": ["let G = upd(G, k - 1, i)"]},
+        {"when": "after", "at": "structure[j - 1] =", "label": "G5", "do": ["let G = upd(G, j - 1, i)"]},
+        {"when": "after", "at": "structure[k - 1] =", "label": "G3", "do": ["let G = upd(G, k - 1, i)"]},
         {"when": "before", "at": "return DotBracket.from_string", "label": "call", "do": ["let R = regions", "let O = orders"]},
     ]
     loops = {
